@@ -1577,10 +1577,14 @@ def c15(ctx):
 def c14(ctx):
     ctx.check_proofs()
     rnd = ctx.rnd
-    if 'levels' in core.COMP_SKIPPED:
-        ctx.notes.append('component overlay for level sources no longer compiles; falling back to the heuristics checkers only')
     cases = []
-    if ctx.replay and 'levels_case' in ctx.replay:
+    if 'levels' in core.COMP_SKIPPED:
+        # the level sources can no longer be called directly (renamed / restructured): the component correspondence that ties the model of
+        # the series to the code is gone; the heuristics are still checked end to end below
+        ctx.notes.append('component overlay for level sources no longer compiles; falling back to the heuristics checkers only')
+        ctx.violation('the level sources can no longer be reached by the component harness (overlay group `levels` does not compile): '
+                      'correspondence Model.Levels vs satisfaction-levels not established', {'broken': 'component overlay levels'}, found_input=False)
+    elif ctx.replay and 'levels_case' in ctx.replay:
         cases = [ctx.replay['levels_case']]
     elif ctx.replay and 'request' in ctx.replay:
         cases = []
@@ -1607,7 +1611,7 @@ def c14(ctx):
     # history elements: series whose coefficient lies below the float resolution of the start value (accepted; they cannot advance and
     # end at once by design of the code - in exact arithmetic they would have ~1e17 levels, so neither the model nor the checker is
     # applied to them); what they leave behind in the process-wide level sources must not change any later series
-    if not ctx.replay:
+    if not ctx.replay and cases:
         for k in range(max(2, len(cases) // 60)):
             pos = rnd.randrange(0, max(1, len(cases) // 2))
             base = cases[rnd.randrange(len(cases))]
@@ -2489,6 +2493,21 @@ def c20(ctx):
             for b in (hb if not ctx.quick else rnd.sample(hb, min(len(hb), 16))):
                 st3, _ = shot(b, 'hostile body')
                 ctx.signatures.add(('hostile', hash(b[:40]) % 1000, st3))
+            if not srv.alive():
+                srv.close()
+                srv = Server(ctx.binary, mem_kb=3 * 1024 * 1024)
+        # boundary sizes: exactly one considered alternative (methods return early there): every documented constraint is still checked
+        for m in (gen.METHODS if not ctx.replay else []):
+            req = gen.any_request(rnd, m)
+            req['choseToMake'] = [rnd.choice(req['knownAlternatives'])['id']]
+            (req.get('methodParameters') or {}).pop('currentChoice', None)
+            st, j = shot(json.dumps(req).encode(), 'valid request with a single considered alternative', None, req)
+            ctx.count('single/' + m)
+            for name, r in invalid_variants(rnd, req):
+                if name.startswith('unknown current choice'):
+                    continue
+                st2, _ = shot(json.dumps(r).encode(), name + ' (single considered alternative)', 400, r)
+                ctx.signatures.add(('single-invalid', name, m, st2))
             if not srv.alive():
                 srv.close()
                 srv = Server(ctx.binary, mem_kb=3 * 1024 * 1024)
